@@ -3,7 +3,7 @@
   Three screens that need no input; screen 0 is scheduled before `run()`; its first `show()` pushes
   screen 1 as a modal screen.
 -/
-import Simpleline.Lemmas.ShapeShield
+import Simpleline.Lemmas.ShapeIntact
 import Simpleline.Lemmas.ShapeExamples
 
 namespace Simpleline
@@ -180,6 +180,61 @@ theorem race_check :
       decide (Tr.show entry0 ∈ newTr c c') && decide (NoErr c) && decide (WFQuiet c) && decide (WFClose c) &&
       decide (WFDrain c) && !decide (WFQuietDrain c) && decide (c.L.levels.length = 2) &&
       decide (c.A.stack = [entry0])) = true := by
+  decide +kernel
+
+/-! ### intact -/
+
+/-- the modal screen calls `close_screen()` twice: it closes itself and then its parent -/
+def scriptTwice : Nat → Cb → Nat → ScriptEnt
+  | 0, .show, 0 => { acts := [.pushModal 1 none] }
+  | 1, .show, 0 => { acts := [.closeDirect, .closeDirect] }
+  | _, _, _ => {}
+
+def progTwice : Prog := { cc := asciiClass, screens := screens3, screenScript := scriptTwice }
+
+/-- screens 0 and 2 scheduled (2 beneath 0) -/
+def startTwice : Cfg := initCfg [.schedule 0 none, .schedule 2 none] [] none []
+
+theorem startedTwice : Started startTwice := ⟨_, _, _, _, rfl⟩
+
+theorem initTwice : InitScreenOnly startTwice := by
+  intro a ha
+  have : Instr.act a ∈ [Instr.act (.schedule 0 none), Instr.act (.schedule 2 none), Instr.apprun] := ha
+  simp at this
+  rcases this with rfl | rfl <;> rfl
+
+theorem progTwice_screenOnly : ScreenOnly progTwice := by
+  apply screenOnly_of
+  intro scr cb n a ha
+  unfold scriptTwice at ha
+  split at ha <;> simp at ha
+  · subst ha; rfl
+  · rcases ha with rfl | rfl <;> rfl
+
+theorem progTwice_closedSilent : ClosedSilent progTwice := by
+  intro scr n
+  show (scriptTwice scr .closed n).acts = []
+  unfold scriptTwice; split <;> first | rfl | (rename_i h; cases h)
+
+/-- in `progModal` the modal push is step 20 and its loop's activation returns in transition 55; all
+hypotheses of the intact clause hold, the stack is the same as before the push -/
+theorem modal_intact_check :
+    testModal progModal 20 33 startS (fun c c1 c2 c3 =>
+      decide (Tr.loopReturn c.L.queues.length ∈ newTr c2 c3) && decide (NoErr c3) && decide (WFQuietDrain c3) &&
+      decide (WFClose c3) && decide (WFDrain c3) && decide (NoForceQuit c3) &&
+      decide (NoStackOpAfterClose c.L.queues.length (newTr c1 c2)) && decide (c2.A.stack = c.A.stack) &&
+      decide (c.A.stack = [entry0])) = true := by
+  decide +kernel
+
+/-- in `progTwice` the modal push is step 21 and its loop's activation returns in transition 62; the
+second `close_screen()` pops the parent after the modal level was popped: at the return only one of the
+two entries that were beneath the modal entry is left -/
+theorem twice_check :
+    testModal progTwice 21 39 startTwice (fun c c1 c2 c3 =>
+      decide (Tr.loopReturn c.L.queues.length ∈ newTr c2 c3) && decide (NoErr c3) && decide (WFQuietDrain c3) &&
+      decide (WFClose c3) && decide (WFDrain c3) && decide (NoForceQuit c3) &&
+      !decide (NoStackOpAfterClose c.L.queues.length (newTr c1 c2)) && decide (c.A.stack.length = 2) &&
+      decide (c2.A.stack.length = 1)) = true := by
   decide +kernel
 
 end ShapeEx
